@@ -67,22 +67,66 @@ func CaptureLog() *LogBuf {
 	return lb
 }
 
-// FreePorts reserves n distinct loopback TCP ports (closed again before
-// returning; collisions with other processes are possible but rare and only
-// ever lead to a Start error which callers treat as a harness error).
-func FreePorts(n int) []int {
-	var ls []net.Listener
-	var ps []int
-	for i := 0; i < n; i++ {
-		l, err := net.Listen("tcp", "127.0.0.1:0")
-		if err != nil {
-			panic(err)
-		}
-		ls = append(ls, l)
-		ps = append(ps, l.Addr().(*net.TCPAddr).Port)
+// Port allocation. Ports come from a range private to the property being
+// checked and below the kernel's ephemeral range (32768+), so that neither
+// outgoing client connections nor other processes' bind(0) calls can take a
+// port between the moment it is handed out and the moment casket binds it.
+// The supervisor exports VERIF_PORT_BASE; the monitor process uses the first
+// 600 ports of the 1000-port range, child-mode processes the last 400
+// (starting at an offset derived from their pid).
+var (
+	portMu     sync.Mutex
+	portCursor int
+	portLo     int
+	portHi     int
+)
+
+func portInit() {
+	if portHi != 0 {
+		return
 	}
-	for _, l := range ls {
-		l.Close()
+	base := 0
+	fmt.Sscanf(os.Getenv("VERIF_PORT_BASE"), "%d", &base)
+	if base == 0 {
+		base = 30000
+	}
+	if len(os.Args) > 1 && os.Args[1] == "sub" {
+		portLo, portHi = base+600, base+1000
+		portCursor = (os.Getpid() * 37) % 400
+	} else {
+		portLo, portHi = base, base+600
+	}
+}
+
+func portFree(p int) bool {
+	l1, err := net.Listen("tcp", fmt.Sprintf("0.0.0.0:%d", p))
+	if err != nil {
+		return false
+	}
+	l1.Close()
+	l2, err := net.Listen("tcp6", fmt.Sprintf("[::]:%d", p))
+	if err == nil {
+		l2.Close()
+	}
+	return true
+}
+
+// FreePorts hands out n distinct TCP ports that are free right now.
+func FreePorts(n int) []int {
+	portMu.Lock()
+	defer portMu.Unlock()
+	portInit()
+	var ps []int
+	span := portHi - portLo
+	for tries := 0; len(ps) < n && tries < 3*span; tries++ {
+		p := portLo + portCursor%span
+		portCursor++
+		if portFree(p) {
+			ps = append(ps, p)
+		}
+	}
+	if len(ps) < n {
+		panic("verif: no free ports in the private range")
 	}
 	return ps
 }
